@@ -25,7 +25,7 @@ def renderOuts (st : BkState) (outs : List Out) (sortTailOf : Option Nat) : BkSt
   let conns := st.order
   let parts := conns.filterMap fun n =>
     let ps := outs.filterMap fun o => match o with
-      | .wrote c p => if c == n then some p else none
+      | .wrote c p => if c == n then some p.render else none
       | _ => none
     -- PUBLISH packets racing with the close of their connection are not compared
     let closing := outs.any (fun o => match o with | .closed c => c == n | _ => false)
